@@ -315,15 +315,16 @@ def forward(spec):
         b = T.encode(x, v)
     except Exception as e:
         return [(_bucket("encode", e), "%s under KMIP %d.%d: %r" % (name, v[0], v[1], e))], None
+    pure = _purity(spec, name, v, b)
     try:
         y = T.decode(name, b, v, hint=spec)
     except T.CodecTrailingBytes as e:
-        return [("%s|decode|trailing-bytes|%s" % (PID, name), str(e))], b
+        return pure + [("%s|decode|trailing-bytes|%s" % (PID, name), str(e))], b
     except Exception as e:
         return [(_bucket("decode", e),
                  "%s under KMIP %d.%d encodes (%d bytes) but cannot be decoded: %r"
                  % (name, v[0], v[1], len(b), e))], b
-    buckets = []
+    buckets = list(pure)
     has_eq = type(x).__eq__ is not object.__eq__
     vs = "KMIP %d.%d" % (v[0], v[1])
     try:
@@ -360,6 +361,44 @@ def forward(spec):
                             "%s %s: enc(dec(b)) != b (%d vs %d bytes)"
                             % (name, vs, len(b2), len(b))))
     return buckets, b
+
+
+_VERSIONS_OF = {}
+
+
+def _purity(spec, name, v, b):
+    """Encoding observes a value, it does not change it: a second, equally built value that has
+    first been encoded under ANOTHER version the class is defined for (whatever that gave) encodes
+    under v to the same bytes.  -> buckets"""
+    if not _VERSIONS_OF:
+        for n_, w_ in T.pairs():
+            _VERSIONS_OF.setdefault(n_, []).append(tuple(w_))
+    out = []
+    others = [w for w in _VERSIONS_OF.get(name, []) if w != v]
+    # the neighbours across the two format changes (1.x <-> 2.0) and one more
+    pick = [w for w in ((2, 0), (1, 4), (1, 0)) if w in others][:2]
+    for w in pick:
+        try:
+            x2 = T.build(spec)
+        except Exception:
+            return out
+        try:
+            T.encode(x2, w)
+        except Exception:
+            pass
+        try:
+            b3 = T.encode(x2, v)
+        except Exception as e:
+            out.append(("%s|encoding-changes-the-value|%s|cannot-encode-again" % (PID, name),
+                        "%s encodes under KMIP %d.%d, but not any more after it was encoded under %d.%d: %r"
+                        % (name, v[0], v[1], w[0], w[1], e)))
+            continue
+        if b3 != b:
+            for label in byte_differences(b, b3, name):
+                out.append(("%s|encoding-changes-the-value|%s" % (PID, label),
+                            "%s: bytes under KMIP %d.%d differ once the same object was encoded under %d.%d before"
+                            % (name, v[0], v[1], w[0], w[1])))
+    return out
 
 
 # ---------------------------------------------------------------------- mutations (backward)
